@@ -173,7 +173,7 @@ fn c04(r: &Run, rec: &StepRec) {
                 prove_d("C04/whole-close-pays-margin+pnl-funding(minus-fees)", delta(rec, who).eq(eq.sub(fees)), what.clone());
                 // funding owed measured from the harness's own ledger of when the position was last
                 // charged (a stale checkpoint must not make a settlement count twice or not at all)
-                if let Some(at) = r.charged_at.get(*who) {
+                if let Some(at) = r.charged_at.get(&(r.vi, *who)) {
                     let f2 = si(&rec.pre.cum[r.vi]).sub(si(at)).mul(si(&p.size)).div_t(c(d));
                     let eq2 = spec::equity(p, spec::pnl(p, q), f2);
                     prove_d("C04/whole-close-charges-only-funding-accrued-since-last-charge", delta(rec, who).eq(eq2.sub(fees)), what.clone());
@@ -304,7 +304,7 @@ fn liq_ratio(r: &Run, rec: &StepRec) -> Option<SInt> {
     // funding owed is measured from the harness's own ledger of when the position was last charged
     // (equal to the stored checkpoint unless the engine let it go stale)
     let mut pl = p.clone();
-    if let Some(at) = r.charged_at.get(subject(&rec.op)) {
+    if let Some(at) = r.charged_at.get(&(r.vi, subject(&rec.op))) {
         pl.last_updated_premium_fraction = *at;
     }
     let i = spec::RatioIn { p: &pl, out_spot: os, out_twap: ot, cum: &rec.pre.cum[r.vi], spot_price: sp, oracle: rec.obs.oracle, d: r.w.d };
